@@ -133,6 +133,13 @@ func (g *genv) expr(t ty, depth int, allowConst bool) *expr {
 		alts = append(alts, func() *expr { return g.lit(b) })
 	}
 	if depth > 0 {
+		// type assertion of an interface variable to t (t implements the interface, or t is an interface type)
+		if cands := g.assertable(t); len(cands) > 0 {
+			alts = append(alts, func() *expr {
+				tt := t
+				return &expr{K: "assert", T: &tt, A: &expr{K: "var", I: cands[g.rng.Intn(len(cands))]}}
+			})
+		}
 		if b != "" {
 			if isNumB(b) || b == "string" {
 				alts = append(alts, func() *expr { // arithmetic
@@ -412,7 +419,15 @@ func (g *genv) block(n, depth int, rets []sty, inFunc bool) []*stmt {
 
 func (g *genv) stmt(depth int, rets []sty, inFunc bool) *stmt {
 	for try := 0; try < 8; try++ {
-		switch g.rng.Intn(13) {
+		switch g.rng.Intn(14) {
+		case 13: // v, ok := x.(T)
+			t := g.poolType()
+			c := g.assertable(t)
+			if len(c) == 0 {
+				continue
+			}
+			g.vars = append(g.vars, t, tB("bool"))
+			return &stmt{K: "defineok", T: &t, E: &expr{K: "var", I: c[g.rng.Intn(len(c))]}}
 		case 0, 1: // var v T = e
 			t := g.poolType()
 			var e *expr
@@ -582,6 +597,20 @@ func (g *genv) pickVar(ok func(ty) bool) (int, ty, bool) {
 	return i, g.vars[i], true
 }
 
+// assertable: the interface variables in scope that may be asserted to t
+func (g *genv) assertable(t ty) []int {
+	var c []int
+	for i, v := range g.vars {
+		if v.K != "iface" || tyEq(v, t) {
+			continue
+		}
+		if t.K == "iface" || implements(t, v) {
+			c = append(c, i)
+		}
+	}
+	return c
+}
+
 func nilableTy(t ty) bool {
 	switch t.K {
 	case "ptr", "slice", "map", "chan", "func", "iface":
@@ -635,7 +664,7 @@ func (g *genv) implementer(it ty) *expr {
 func (g *genv) pool(n int) []*stmt {
 	var out []*stmt
 	must := []ty{tB("int"), tB("string"), tB("bool"), tB("float64"), tN(0), tSlice(sty{B: "int"}), tChan("both", sty{B: "int"}), tMap(sty{B: "string"}, sty{B: "int"}),
-		tArr(3, sty{B: "int"}), tStruct(0), tIface(1), tPtr(sty{B: "int"})}
+		tArr(3, sty{B: "int"}), tStruct(0), tIface(1), tPtr(sty{B: "int"}), tIface(3), tStruct(3), tIface(0)}
 	for i := 0; i < n; i++ {
 		var t ty
 		if i < len(must) {
